@@ -1554,13 +1554,19 @@ fn judge(c: &Case, o: &Obs) -> Judgement {
                         .with_sig(SIG_SHORT),
                     );
                 } else {
-                    let missing: Vec<usize> =
-                        live2.iter().filter(|(_, d)| Some(*d) == earliest2 && *d <= *b2).map(|(i, _)| *i).filter(|i| !fired2(*i)).collect();
+                    // the limiting timer(s): overdue when the follow-up began, or ending its wait at least 1 ms before the
+                    // timeout would (the wait then ends at / after the deadline and next_expired(now) must pop it)
+                    let missing: Vec<usize> = live2
+                        .iter()
+                        .filter(|(_, d)| Some(*d) == earliest2 && (*d <= *b2 || *d + FIRE_MARGIN <= *b2 + follow_t))
+                        .map(|(i, _)| *i)
+                        .filter(|i| !fired2(*i))
+                        .collect();
                     if !missing.is_empty() {
                         j.hard.push(
                             Violation::new(
                                 "C12.short",
-                                format!("follow-up dispatch did not fire timer(s) {:?} whose deadline had passed before it began. {}", missing, describe2()),
+                                format!("follow-up dispatch returned after {:.3} ms without firing timer(s) {:?} that limited its wait (or were overdue when it began). {}", ms(elapsed2), missing, describe2()),
                             )
                             .with_sig(SIG_NOT_FIRED),
                         );
